@@ -149,7 +149,8 @@ impl SignatureConverter<'_> {
 
         for param in params.into_iter() {
             match &param {
-                syn::GenericParam::Type(_) => {}
+                // type and const parameters are lifted to the trait, only lifetimes stay on the method
+                syn::GenericParam::Type(_) | syn::GenericParam::Const(_) => {}
                 _ => {
                     generics.params.push(param);
                 }
